@@ -36,7 +36,9 @@ RULE = ('each case evaluates one identity at one point. Exact tier: entries '
         'floats (tenths and eighths; identical rows, a doubled row, a zero '
         'column) => unchanged + warning. Non-trivial = matrices with all '
         'entries non-zero and pairwise distinct / vectors without zero '
-        'component / every piecewise region.')
+        'component / every piecewise region.'
+        ' Round 13 added: affine, transposed-affine and block-diagonal'
+        ' matrices for the inverse.')
 ANCHORS = [
     'desper/math.py::clamp',
     'desper/math.py::Vec2.__add__', 'desper/math.py::Vec2.lerp',
